@@ -368,6 +368,17 @@ def op_apply(w, name, V, tag):
         else:
             for g in mesh.dict_groupElem.values():
                 g.coord = new
+    elif name == "copymesh":
+        # Mesh.copy() of the (already used) mesh; the COPY is stretched and used by another simulation of the same kind, which assembles on it.
+        # The simulation under test and its own mesh are not touched: whatever it computes next is what a fresh simulation computes.
+        m2 = mesh.copy()
+        cx, cy = V.get(f"cx{tag}", Fraction(1, 2), 2), V.get(f"cy{tag}", Fraction(1, 2), 2)
+        new = np.array(m2.coord, dtype=object if V.symbolic else float)
+        new[:, 0] = new[:, 0] * cx
+        new[:, 1] = new[:, 1] * cy
+        m2.coord = new
+        other = w.sim_class()(m2, w.new_model(m2.dim, s.model), verbosity=False)
+        other.Get_K_C_M_F()
     elif name == "newmesh":
         s.mesh = second_mesh(w.elem)
         w.P[0]["bc"] = []  # documented: replacing the mesh re-initialises the boundary conditions
@@ -659,6 +670,11 @@ def configs(tier):
             out.append({"sim": "beam", "elem": kind, "ops": [o]})
         for a, b in [(a, b) for a in bops for b in bops]:
             out.append({"sim": "beam", "elem": kind, "ops": [a, b]})
+    # Mesh.copy(): what another simulation does with the copy never reaches this simulation (followed by a change that forces a re-assembly)
+    for sim_, elem_, second in (("elastic", "TRI3", "E"), ("elastic", "TRI3", "rho"), ("thermal", "TRI3", "k"), ("thermal", "TRI3", "rho"), ("elastic", "TRI3", "translate")):
+        out.append({"sim": sim_, "elem": elem_, "ops": ["copymesh", second]})
+        if tier == "thorough":
+            out.append({"sim": sim_, "elem": elem_, "ops": [second, "copymesh", second]})
     # a per-element field is written for one mesh: sequences that replace the mesh after it are not meaningful
     out = [cf for cf in out if not any(o in FIELD_OPS and any(b in ("newmesh", "set_iter") for b in cf["ops"][k + 1:]) for k, o in enumerate(cf["ops"]))]
     # ... and a model shared by two simulations on meshes of different sizes cannot carry one per-element field
